@@ -33,8 +33,13 @@ Inductive cs : list winstr -> Prop :=
 
 Lemma ws_safeb_spec sk : ws_safeb sk = true -> exists t, sk = [SAcq t; STest; SWrite true; SLatch; SRel].
 Proof.
-  destruct sk as [|[t| |[|]| | | |] [|[| |[|]| | | |] [|[| |[|]| | | |] [|[| |[|]| | | |] [|[| |[|]| | | |] [|]]]]]];
-    cbn; intros H; try discriminate. now exists t.
+  unfold ws_safeb. intros H.
+  destruct sk as [|e1 sk]; [discriminate|]. destruct e1 as [t| | | | | |]; try discriminate.
+  destruct sk as [|e2 sk]; [discriminate|]. destruct e2; try discriminate.
+  destruct sk as [|e3 sk]; [discriminate|]. destruct e3 as [|  |[|]| | | |]; try discriminate.
+  destruct sk as [|e4 sk]; [discriminate|]. destruct e4; try discriminate.
+  destruct sk as [|e5 sk]; [discriminate|]. destruct e5; try discriminate.
+  destruct sk; [|discriminate]. now exists t.
 Qed.
 
 Lemma in_wr_code f c r : top c -> forall d, in_wr f d r (map (WWrite true) r ++ WLatch (is_close f) :: WRel :: c).
